@@ -12,25 +12,27 @@ ProgF2 == << <<{"enter"}, {"leave"}>>,
              <<{"notify"}, {"enter"}, {"leave"}, {"waitT"}>> >>
 
 \* liveness runs (TLC's liveness checking is far more expensive than safety)
-ProgLive1 == << <<{"enter"}, {"leave"}, {"enter"}, {"leave"}>>,
-                <<{"wait", "waitT"}, {"notify"}>>,
-                <<{"notify"}, {"waitT", "waitN"}>> >>
+ProgLive1 == << <<{"enter"}, {"leave"}>>,
+                <<{"wait", "waitT"}>>,
+                <<{"notify"}>> >>
 ProgLive2 == << <<{"enter"}, {"notify"}, {"leave"}>>,
-                <<{"enter"}, {"wait", "waitT"}, {"leave"}>>,
-                <<{"wait"}, {"notify"}>> >>
+                <<{"enter"}, {"waitT"}, {"leave"}>>,
+                <<{"wait"}>> >>
 
 \* two generations, a notifier per generation, untimed + timed + polling waiters
 ProgGen == << <<{"enter"}, {"leave"}, {"enter"}, {"notify", "skip"}, {"leave"}>>,
               <<{"wait", "waitT", "waitN"}, {"notify", "enter"}, {"leave", "wait"}>>,
               <<{"enter", "skip"}, {"waitT", "wait"}, {"leave", "skip"}>> >>
 
-\* free choice: every thread picks any operation, three calls each
+\* free choice: every thread picks any operation
 AnyOp == {"enter", "leave", "notify", "wait", "waitT", "waitN"}
-ProgAny2 == << <<AnyOp, AnyOp>>, <<AnyOp, AnyOp>>, <<AnyOp, AnyOp>> >>
-ProgAny3 == << <<AnyOp, AnyOp, AnyOp>>, <<AnyOp, AnyOp, AnyOp>>, <<AnyOp, AnyOp, AnyOp>> >>
-ProgAny4 == << <<AnyOp, AnyOp, AnyOp, AnyOp>>, <<AnyOp, AnyOp, AnyOp, AnyOp>>, <<AnyOp, AnyOp, AnyOp>> >>
+ProgAny == << <<AnyOp, AnyOp>>, <<AnyOp, AnyOp>>, <<{"enter", "notify", "waitT"}, {"leave", "notify", "wait"}>> >>
 
-\* dispatch_group_async: thread 3 is the worker
-AnyA == {"enter", "leave", "async", "notify", "wait", "waitT"}
-ProgAsync == << <<AnyA, AnyA, AnyA>>, <<AnyA, AnyA, AnyA>>, <<>> >>
+\* dispatch_group_async: thread 3 is the worker that runs the blocks and then leaves
+ProgAsync == << <<{"async"}, {"notify"}, {"wait", "waitT"}>>,
+                <<{"async", "enter"}, {"notify", "wait"}, {"leave", "skip"}>>,
+                <<>> >>
+
+\* the observation NoMissedZero (not judged, see tools/props/C07.py)
+ProgMiss == << <<{"enter"}, {"leave"}, {"enter"}>>, <<{"notify"}>>, <<{"notify"}>> >>
 =============================================================================
